@@ -1,3 +1,187 @@
-(* C18 — placeholder while the proofs are being written *)
+(* C18 — The controller state machine applies a committed command log deterministically.
+
+   Only statements, each closed by [exact] of a lemma of Proof/CtrlFSM_*.v.
+   Objects (Model/CtrlFSM.v, Model/CtrlFSM_C18.v):
+     applyMutation            the transcribed fsm.applyMutation with all 15 command kinds
+     ApplyBatch / apply_parts  the transcribed frame of fsm.ApplyBatch, generic in the mutation function
+     ck                        state.Checksum: ANY function of the state that ignores the checksum field
+     S_ref ck log k / R_ref ck log k   published state after / result of entry k when the log is
+                               applied one entry per ApplyBatch on a fresh machine
+     monitor_gen               the predicate the harness evaluates on the implementation's observations
+   Logs are lists of entries with STRICTLY INCREASING Raft indices (as Raft delivers them);
+   [c18_nonincreasing_log_differs] shows the hypothesis is needed. *)
 From WK Require Import Base.Base Gen.Consts_C18 Model.CtrlFSM Model.CtrlFSM_C18.
+From WK Require Import Proof.CtrlFSM_norm Proof.CtrlFSM_getset Proof.CtrlFSM_handlers Proof.CtrlFSM_frame Proof.CtrlFSM_C18.
+From Coq Require Import Sorting.Sorted.
 Open Scope N_scope.
+
+(* ---- the handler contract, proved for the transcribed applyMutation (all kinds) ---------- *)
+
+(* Good: passes Validate, is normalized, revision below 2^64 (and therefore <> 0) *)
+Theorem c18_good_is_valid : forall s, Good s -> Validate s = true /\ Normalize s = s /\ s_rev s <> 0.
+Proof. exact Good_unfold. Qed.
+Print Assumptions c18_good_is_valid.
+
+(* on a Good state every command is exactly one of: Noop/Rejected with the state untouched;
+   Changed with revision + 1; Updated with the same revision and the same logical state —
+   and the resulting state is Good again (validated or rolled back) *)
+Theorem c18_handler_contract_post : forall s i t c,
+    Good s ->
+    let s' := fst (applyMutation s i t c) in
+    let r := snd (applyMutation s i t c) in
+    Good s' /\ s_applied s' = s_applied s
+    /\ (((r_class r = cNoop \/ r_class r = cRejected) /\ s' = s)
+        \/ (r_class r = cChanged /\ s_rev s' = s_rev s + 1)
+        \/ (r_class r = cUpdated /\ s_rev s' = s_rev s /\ logical_eq s' s = true)).
+Proof. exact H_HC_post. Qed.
+Print Assumptions c18_handler_contract_post.
+
+(* before init: nothing changes unless an init installs a validated state with revision 1 *)
+Theorem c18_handler_contract_pre : forall i t c,
+    let s' := fst (applyMutation empty_state i t c) in
+    let r := snd (applyMutation empty_state i t c) in
+    (s_rev s' = 0 -> s' = empty_state /\ (r_class r = cNoop \/ r_class r = cRejected))
+    /\ (s_rev s' <> 0 -> r_class r = cChanged /\ s_rev s' = 1 /\ s_applied s' <= i /\ Good s').
+Proof. exact H_HC_pre. Qed.
+Print Assumptions c18_handler_contract_pre.
+
+(* no handler looks at the checksum field (inside a batch it is the stale one) *)
+Theorem c18_handler_contract_blind : forall s1 s2 i t c,
+    set_checksum s1 [] = set_checksum s2 [] ->
+    set_checksum (fst (applyMutation s1 i t c)) [] = set_checksum (fst (applyMutation s2 i t c)) []
+    /\ snd (applyMutation s1 i t c) = snd (applyMutation s2 i t c).
+Proof. exact applyMutation_blind. Qed.
+Print Assumptions c18_handler_contract_blind.
+
+(* ---- batch-partition invariance ------------------------------------------------------------ *)
+
+(* any partition of the log into ApplyBatch calls ends in the same machine (published state,
+   persisted state, degraded flag) and yields the same per-entry results as one entry at a time *)
+Theorem c18_partition_invariant : forall ck, (forall s x, ck (set_checksum s x) = ck s) ->
+  forall log, StronglySorted N.lt (map e_idx log) ->
+  forall parts, concat parts = log ->
+  c_parts ck parts = c_parts ck (map (fun e => [e]) log).
+Proof. exact model_partition. Qed.
+Print Assumptions c18_partition_invariant.
+
+(* ---- replay after restart ---------------------------------------------------------------------- *)
+
+(* restart from the persisted state after h entries (revision <> 0); re-applying any entries among
+   the first h returns already_applied no-ops, publishes and persists the same state *)
+Theorem c18_replay_noop : forall ck, (forall s x, ck (set_checksum s x) = ck s) ->
+  forall log, StronglySorted N.lt (map e_idx log) ->
+  forall h c cnt, (h <= length log)%nat -> (c + cnt <= h)%nat -> s_rev (S_ref ck log h) <> 0 ->
+  ApplyBatch s_rev s_applied set_applied set_checksum applyMutation ck (restart empty_state (M_ref ck log h)) 0
+             (map (entry_at log) (seq c cnt))
+  = (M_ref ck log h,
+     BO (repeat (Rs cNoop ReasonAlreadyApplied (s_rev (S_ref ck log h)) (s_applied (S_ref ck log h)) [] 0) cnt)
+        false (Some (S_ref ck log h)) (Some (S_ref ck log h))).
+Proof. exact model_replay_noop. Qed.
+Print Assumptions c18_replay_noop.
+
+(* before init nothing was persisted; re-applying gives the same results and persists nothing *)
+Theorem c18_replay_preinit : forall ck, (forall s x, ck (set_checksum s x) = ck s) ->
+  forall log, StronglySorted N.lt (map e_idx log) ->
+  forall h c cnt, (h <= length log)%nat -> (c + cnt <= h)%nat -> s_rev (S_ref ck log h) = 0 ->
+  ApplyBatch s_rev s_applied set_applied set_checksum applyMutation ck (restart empty_state (M_ref ck log h)) 0
+             (map (entry_at log) (seq c cnt))
+  = (M_ref ck log h, BO (map (R_ref ck log) (seq c cnt)) false (Some empty_state) None).
+Proof. exact model_replay_preinit. Qed.
+Print Assumptions c18_replay_preinit.
+
+(* ---- per-entry clauses on the reference run ------------------------------------------------------ *)
+
+Theorem c18_result_class : forall ck, (forall s x, ck (set_checksum s x) = ck s) ->
+  forall log, StronglySorted N.lt (map e_idx log) -> forall k, (k < length log)%nat ->
+  r_class (R_ref ck log k) = cChanged \/ r_class (R_ref ck log k) = cUpdated
+  \/ r_class (R_ref ck log k) = cNoop \/ r_class (R_ref ck log k) = cRejected.
+Proof. exact model_result_class. Qed.
+Print Assumptions c18_result_class.
+
+Theorem c18_revision_plus_one : forall ck, (forall s x, ck (set_checksum s x) = ck s) ->
+  forall log, StronglySorted N.lt (map e_idx log) -> forall k, (k < length log)%nat ->
+  r_class (R_ref ck log k) = cChanged -> s_rev (S_ref ck log (S k)) = s_rev (S_ref ck log k) + 1.
+Proof. exact model_revision_plus_one. Qed.
+Print Assumptions c18_revision_plus_one.
+
+Theorem c18_updated_keeps_revision : forall ck, (forall s x, ck (set_checksum s x) = ck s) ->
+  forall log, StronglySorted N.lt (map e_idx log) -> forall k, (k < length log)%nat ->
+  r_class (R_ref ck log k) = cUpdated ->
+  s_rev (S_ref ck log (S k)) = s_rev (S_ref ck log k) /\ logical_eq (S_ref ck log (S k)) (S_ref ck log k) = true.
+Proof. exact model_updated_keeps_revision. Qed.
+Print Assumptions c18_updated_keeps_revision.
+
+(* rejected and no-op commands leave the state untouched (but for applied index and checksum) *)
+Theorem c18_rejected_untouched : forall ck, (forall s x, ck (set_checksum s x) = ck s) ->
+  forall log, StronglySorted N.lt (map e_idx log) -> forall k, (k < length log)%nat ->
+  r_class (R_ref ck log k) = cNoop \/ r_class (R_ref ck log k) = cRejected ->
+  body_eq (S_ref ck log (S k)) (S_ref ck log k) = true.
+Proof. exact model_rejected_untouched. Qed.
+Print Assumptions c18_rejected_untouched.
+
+(* every persisted / published state passes Validate and carries its own checksum *)
+Theorem c18_persisted_valid : forall ck, (forall s x, ck (set_checksum s x) = ck s) ->
+  forall log, StronglySorted N.lt (map e_idx log) -> forall k, (k < length log)%nat ->
+  s_rev (S_ref ck log (S k)) <> 0 ->
+  Validate (S_ref ck log (S k)) = true /\ ckokS ck (S_ref ck log (S k)) = true.
+Proof. exact model_persisted_valid. Qed.
+Print Assumptions c18_persisted_valid.
+
+Theorem c18_preinit_nothing : forall ck, (forall s x, ck (set_checksum s x) = ck s) ->
+  forall log, StronglySorted N.lt (map e_idx log) -> forall k, (k < length log)%nat ->
+  s_rev (S_ref ck log (S k)) = 0 -> S_ref ck log (S k) = empty_state.
+Proof. exact model_preinit_nothing. Qed.
+Print Assumptions c18_preinit_nothing.
+
+(* ---- the monitor ------------------------------------------------------------------------------------ *)
+
+(* For every log and every list of well-formed scenarios (any batch partition, failed Saves of
+   both kinds each followed by a restart, restarts replaying from any acknowledged position) the
+   model's observations satisfy the predicate C18_monitor evaluates on the implementation:
+   every published and persisted state of every scenario is the reference state of the log prefix
+   it contains, every result is the reference result or an already_applied no-op, and the
+   reference run satisfies the per-entry clauses above.  [c_wf] is [scen_wf] of Proof/CtrlFSM_frame.v. *)
+Theorem c18_model_satisfies_monitor : forall ck, (forall s x, ck (set_checksum s x) = ck s) ->
+  forall log, StronglySorted N.lt (map e_idx log) ->
+  forall scens, Forall (c_wf ck log) scens ->
+  monitor_gen s_rev s_applied Validate (ckokS ck) CState_eqb body_eq logical_eq empty_state
+              (map e_idx log) (c_run ck log (repeat (CBatch 1 0) (length log))) (map (c_run ck log) scens) = true.
+Proof. exact model_monitor. Qed.
+Print Assumptions c18_model_satisfies_monitor.
+
+(* C18_monitor is that predicate on the implementation's observations *)
+Theorem c18_monitor_is_monitor_gen : forall c,
+  C18_monitor c = 0 <->
+  monitor_gen (fun r => s_rev (body_of c r)) sr_applied sr_valid sr_ckok (sref_eq c) (sref_body_eq c)
+              (sref_logical_eq c) (c_init c) (map e_idx (c_log c)) (c_ref c) (c_scens c) = true.
+Proof. exact monitor_is_gen. Qed.
+Print Assumptions c18_monitor_is_monitor_gen.
+
+(* ---- non-vacuity ---------------------------------------------------------------------------------------- *)
+
+(* the constant checksum function of the case evaluation satisfies the hypothesis on ck *)
+Example c18_ck0_blind : forall s x, ck0 (set_checksum s x) = ck0 s.
+Proof. exact ck0_blind. Qed.
+
+(* a log with a pre-init reject, an init, a change and a no-op; two batches *)
+Example c18_example_run :
+  map r_class (snd (c_parts ck0 [[En 3 1 (ex_upsert NodeStatusDown); En 5 1 ex_init];
+                                  [En 6 1 (ex_upsert NodeStatusSuspect); En 9 2 (ex_upsert NodeStatusSuspect)]]))
+  = [cRejected; cChanged; cChanged; cNoop]
+  /\ map r_rev (snd (c_parts ck0 (map (fun e => [e]) ex_log))) = [0; 1; 2; 2]
+  /\ map r_applied (snd (c_parts ck0 (map (fun e => [e]) ex_log))) = [3; 5; 6; 9].
+Proof. exact ex_run_classes. Qed.
+
+Example c18_example_sorted : StronglySorted N.lt (map e_idx ex_log).
+Proof. exact ex_log_sorted. Qed.
+
+(* a scenario with both kinds of failed Save, three restarts and replays is well formed *)
+Example c18_example_scenario_wf :
+  c_wf ck0 ex_log [CBatch 3 2; CRestart 1; CBatch 3 0; CRestart 0; CBatch 4 1; CRestart 2; CBatch 2 0].
+Proof. exact ex_scenario_wf. Qed.
+
+(* with indices out of order (not a Raft log) one batch and one-at-a-time differ: the
+   already-applied test of a batch uses the revision the batch started with *)
+Example c18_nonincreasing_log_differs :
+  snd (c_parts ck0 [ex_unsorted]) <> snd (c_parts ck0 (map (fun e => [e]) ex_unsorted)).
+Proof. exact ex_unsorted_differs. Qed.
